@@ -203,7 +203,13 @@ impl Sphere {
     /// Extend this sphere to include `x`, if necessary.
     pub fn extend(mut self, x: DVec3) -> Self {
         if !self.contains(x) {
-            let opposite = self.center - self.radius * (x - self.center).normalize();
+            // The point of this sphere opposite to `x`: the center itself for a sphere of zero
+            // radius (a single point), also when `x` coincides with it.
+            let opposite = if self.radius > 0. {
+                self.center - self.radius * (x - self.center).normalize()
+            } else {
+                self.center
+            };
             self.center = 0.5 * (opposite + x);
             self.radius = self.center.distance(x);
         }
